@@ -343,7 +343,7 @@ theorem unmapIP_len (b : List Nat) (h : b.length = 4 ∨ b.length = 16) :
 /-- a local address the entry check admits and a remote address of 4 or 16 bytes with a path
     that can be set always give a header — no panic -/
 theorem C05T_header_total (dscp lia ria lport rport : Nat) (lip rip : List Nat) (auth : Bool)
-    (hl : localAddrOk lip.length = true) (hr : rip.length = 4 ∨ rip.length = 16) :
+    (hdscp : dscp ≤ 63) (hl : localAddrOk lip.length = true) (hr : rip.length = 4 ∨ rip.length = 16) :
     ∃ h, mkScionRequestHeader dscp lia lip ria rip lport rport true auth = .hdr h := by
   have hl' : lip.length = 4 ∨ lip.length = 16 := by
     simpa [localAddrOk] using hl
@@ -351,8 +351,9 @@ theorem C05T_header_total (dscp lia ria lport rport : Nat) (lip rip : List Nat) 
   obtain ⟨c, hc, hcl⟩ := unmapIP_len rip hr
   have hheld : held rip = c := by simp [held, hc]
   obtain ⟨c', hc', _⟩ := unmapIP_len c hcl
+  have hd : ¬ dscp > 63 := by omega
   simp only [mkScionRequestHeader, hostOfIP, ha, hheld, hc', Option.map_some, Bool.not_true,
-    Bool.false_eq_true, if_false]
+    Bool.false_eq_true, if_false, hd]
   exact ⟨_, rfl⟩
 
 /-- the remaining explicit panic: a caller-supplied remote address of another length (not
@@ -363,7 +364,8 @@ theorem C05T_header_remote_panic :
     mkScionRequestHeader 0 1 [127, 0, 0, 1] 2 [1, 2, 3] 1000 123 true false = .panicAddr ∧
     mkScionRequestHeader 0 1 [127, 0, 0, 1] 2 [] 1000 123 true false = .panicAddr ∧
     mkScionRequestHeader 0 1 [127, 0, 0, 1] 2 [10, 0, 0, 2] 1000 123 false false = .panicSetPath ∧
-    mkScionRequestHeader 0 1 [1, 2, 3] 2 [10, 0, 0, 2] 1000 123 true false = .errAddr := by
+    mkScionRequestHeader 0 1 [1, 2, 3] 2 [10, 0, 0, 2] 1000 123 true false = .errAddr ∧
+    mkScionRequestHeader 64 1 [127, 0, 0, 1] 2 [10, 0, 0, 2] 1000 123 true false = .panicDSCP := by
   decide
 
 /-- **The header names the hosts the client's key request names.** For every local and remote
@@ -375,20 +377,27 @@ theorem C05T_header_remote_panic :
 theorem C05T_header_hosts_are_key_hosts (dscp lia ria lport rport : Nat) (lip rip : List Nat) (sp auth : Bool)
     (h : ReqHdr) (hh : mkScionRequestHeader dscp lia lip ria rip lport rport sp auth = .hdr h) :
     listenerHostOf h.src = drkeyHostOfIP lip ∧ listenerHostOf h.dst = drkeyHostOfIP (held rip) ∧
-    h.srcIA = lia ∧ h.dstIA = ria ∧ h.trafficClass = dscp * 4 % 256 := by
+    h.srcIA = lia ∧ h.dstIA = ria ∧ h.trafficClass = dscp * 4 ∧ dscp ≤ 63 := by
   unfold mkScionRequestHeader at hh
   cases hs : hostOfIP lip with
   | none => simp [hs] at hh
   | some s =>
     cases hd : hostOfIP (held rip) with
-    | none => simp [hs, hd] at hh
+    | none =>
+      simp only [hs, hd] at hh
+      split at hh <;> cases hh
     | some d =>
       simp only [hs, hd] at hh
       split at hh
       · cases hh
+      rename_i hdscp
+      split at hh
+      · cases hh
       · simp only [HdrResult.hdr.injEq] at hh
         subst hh
-        simp only [and_self, and_true]
+        have h63 : dscp ≤ 63 := by omega
+        have htc : dscp * 4 % 256 = dscp * 4 := by omega
+        simp only [and_self, and_true, htc, h63]
         have key : ∀ (b : List Nat) (x : HostAddr), hostOfIP b = some x → listenerHostOf x = drkeyHostOfIP b := by
           intro b x hx
           unfold hostOfIP at hx
